@@ -135,8 +135,9 @@ Proof. vm_compute. repeat split; reflexivity. Qed.
    v6 is a congruence in the sub-schema positions (the two-serializer form of C17Classes.ek_cong).
    Premise (DefsFrag.cd_okb, executable, counted per run as code 12): the primary and every definition
    in the fragment of C17's class congruence (so no float multipleOf: finding K17), every class met
-   below a node and every definition present under its name / key in the emitted "definitions", and no
-   definition deeper than a node it equals. *)
+   below a node and every definition present under its name / key in the emitted "definitions".  (The jump
+   from a replaced sub-element to its definition leaves the tree: the induction is on depth, and equal
+   elements have equal depth - EqDepth.dle_eq.) *)
 Theorem C03_meaning_definitions : forall O cd classes fuel e,
   cd_okb cd classes fuel e = true -> e <> ENothing ->
   exists n0, forall n, n0 <= n ->
